@@ -105,6 +105,29 @@ theorem M44_showFixed {α : Type} (a : M44 α) : ShowOK (Gen.M44.showFixed a) (m
 theorem M44_showSci {α : Type} (a : M44 α) : ShowOK (Gen.M44.showSci a) (matPieces 4) 16 := by
   unfold Gen.M44.showSci; decide
 
+/-! `operator<<` leaves the caller's stream state (flags, precision, fill, pending width) as it found it: the matrix
+operators switch the stream to scientific / showpoint while printing and must restore it. -/
+
+theorem V2_showKeepsState {α : Type} (a : V2 α) : Gen.V2.showKeepsState a = true := rfl
+
+theorem V3_showKeepsState {α : Type} (a : V3 α) : Gen.V3.showKeepsState a = true := rfl
+
+theorem V4_showKeepsState {α : Type} (a : V4 α) : Gen.V4.showKeepsState a = true := rfl
+
+theorem C3_showKeepsState {α : Type} (a : V3 α) : Gen.C3.showKeepsState a = true := rfl
+
+theorem C4_showKeepsState {α : Type} (a : C4 α) : Gen.C4.showKeepsState a = true := rfl
+
+theorem Shear6_showKeepsState {α : Type} (a : Shear6 α) : Gen.Shear6.showKeepsState a = true := rfl
+
+theorem Quat_showKeepsState {α : Type} (a : Quat α) : Gen.Quat.showKeepsState a = true := rfl
+
+theorem M22_showKeepsState {α : Type} (a : M22 α) : Gen.M22.showKeepsState a = true := rfl
+
+theorem M33_showKeepsState {α : Type} (a : M33 α) : Gen.M33.showKeepsState a = true := rfl
+
+theorem M44_showKeepsState {α : Type} (a : M44 α) : Gen.M44.showKeepsState a = true := rfl
+
 /-- non-vacuity of the tokenisation theorem: a concrete printing function satisfies the hygiene
 hypothesis, and the theorem then yields the three printed components of a Vec3 -/
 example : tokens (render (fun i _ _ _ => ['e', Char.ofNat (48 + i)]) (Gen.V3.show (⟨1, 2, 3⟩ : V3 Nat)))
